@@ -208,9 +208,9 @@ Section Dec.
   Qed.
 End Dec.
 
-Lemma run_declog f ts i : realistic f -> dec_ok f -> r_declog (run head f ts i) = dec_lines ts i.
+Lemma run_declog f ts i : realistic f -> dec_ok f -> r_declog (hook_run head f ts i) = dec_lines ts i.
 Proof.
-  intros Hr Hok. unfold run.
+  intros Hr Hok. unfold hook_run.
   pose proof (pres_setup head f init) as P. destruct (eff_setup head f (realistic_handled f Hr) init) as [R _].
   destruct (setup head f init) as [s1 crashed]; simpl in P, R. subst crashed.
   pose proof (body_declog head f ts Hok i s1 P) as B.
@@ -288,7 +288,7 @@ Lemma one_line f ts i p full :
   h_json_ok i = true -> h_cfg_error i = false -> final_log (h_cfg i) None false = (Some p, full) ->
   decides (h_route i) = true ->
   exists e,
-    r_declog (run head f ts i) = [jline e] /\
+    r_declog (hook_run head f ts i) = [jline e] /\
     complete_line (jline e) /\
     read_line (jline e) = Some (map upair e) /\
     route_entry full ts (h_route i) = Some e /\
@@ -304,7 +304,7 @@ Qed.
 Lemma no_line f ts i :
   realistic f -> dec_ok f ->
   h_json_ok i = false \/ h_cfg_error i = true \/ fst (final_log (h_cfg i) None false) = None \/ decides (h_route i) = false ->
-  r_declog (run head f ts i) = [].
+  r_declog (hook_run head f ts i) = [].
 Proof.
   intros Hr Hok H. rewrite (run_declog f ts i Hr Hok). unfold dec_lines, route_lines.
   destruct H as [H | [H | [H | H]]].
@@ -319,9 +319,9 @@ Qed.
 
 (* a failing decision-log sink never leaves a partial line: the log stays as it was *)
 Lemma no_partial_line f ts i : realistic f ->
-  r_declog (run head f ts i) = [] \/ exists e, r_declog (run head f ts i) = [jline e].
+  r_declog (hook_run head f ts i) = [] \/ exists e, r_declog (hook_run head f ts i) = [jline e].
 Proof.
-  intro Hr. unfold run.
+  intro Hr. unfold hook_run.
   assert (G : forall (a : st -> st * bool) (s : st), (forall s, declog (fst (a s)) = declog s \/ exists e, declog (fst (a s)) = declog s ++ [jline e]) ->
               declog s = [] -> declog (fst (a s)) = [] \/ exists e, declog (fst (a s)) = [jline e]).
   { intros a s Ha E. destruct (Ha s) as [X | [e X]]; rewrite X, E; [left; reflexivity | right; exists e; reflexivity]. }
